@@ -82,6 +82,8 @@ def _extra():
     add("axolotl:receipt_outgoing_retry.RetryOutgoingReceiptProtocolEntity",
         lambda: N("receipt", {"to": J1, "type": "retry", "id": "1415389947-12"},
                   [N("retry", {"count": "1", "t": "1432833266", "id": "1415389947-12", "v": "1"}), N("registration", data=b"\x7a\x9c\xec\x4b")]))
+    add("protocol_groups:iq_groups_participants_add_failure.FailureAddParticipantsIqProtocolEntity",
+        lambda: N("iq", {"type": "error", "from": G1, "id": "77"}, [N("error", {"text": "item-not-found", "code": "404"})]))
     add("protocol_acks:ack.AckProtocolEntity", lambda: N("ack", {"class": "receipt", "id": "1415389947-12"}))
     add("protocol_chatstate:chatstate.ChatstateProtocolEntity", lambda: N("chatstate", {}, [N("composing")]))
     add("protocol_contacts:notification_contact.ContactNotificationProtocolEntity",
